@@ -29,6 +29,11 @@ def data(ctx, i):
     A = r.normal(size=(D, D)) + 2 * np.eye(D)
     centers = r.normal(0, 3, size=(K, D))
     lab = np.repeat(np.arange(K), per)
+    if K >= 2 and r.random() < 0.3:
+        # unequal classes, the last one a single sample (its scatter is zero but it still counts as a class); the others keep the
+        # within-class scatter full rank
+        lab[lab == K - 1] = 0
+        lab[-1] = K - 1
     X = centers[lab] + r.normal(size=(N, D)) @ A
     # features far from the origin (|mean| / std up to 1e6): the identities may not depend on where the origin is
     offset = float(r.choice([0.0, 0.0, 1e3, 1e5, 1e6])) * r.choice([-1.0, 1.0], size=D)
